@@ -15,6 +15,7 @@ package main
 import (
 	"errors"
 	"fmt"
+	"io"
 	"math/rand"
 	"net/http"
 	"runtime/debug"
@@ -32,14 +33,24 @@ func (e *c18TempErr) Temporary() bool { return true }
 func (e *c18TempErr) Timeout() bool   { return false }
 
 type c18Stub struct {
-	name string
-	log  *[]string
+	name   string
+	log    *[]string
+	err    error // non-nil: this transport fails (after logging that it saw the request)
+	status int
 }
 
 func (s *c18Stub) RoundTrip(r *http.Request) (*http.Response, error) {
 	*s.log = append(*s.log, "T"+s.name+":"+strings.Join(r.Header["X-Trace"], "."))
-	return &http.Response{StatusCode: 200, Status: "200 OK", Proto: "HTTP/1.1", ProtoMajor: 1, ProtoMinor: 1,
-		Header: http.Header{}, Body: http.NoBody, Request: r}, nil
+	if s.err != nil {
+		return nil, s.err
+	}
+	hdr := http.Header{}
+	if s.status != 200 {
+		hdr.Set("Retry-After", "0")
+		hdr.Set("Www-Authenticate", "Basic realm=x")
+	}
+	return &http.Response{StatusCode: s.status, Status: strconv.Itoa(s.status) + " " + http.StatusText(s.status), Proto: "HTTP/1.1", ProtoMajor: 1, ProtoMinor: 1,
+		Header: hdr, Body: io.NopCloser(strings.NewReader("{}")), Request: r}, nil
 }
 
 func c18Ids(s string) []int {
@@ -66,10 +77,30 @@ func c18Run(line string) string {
 		cfg[k] = v
 	}
 	var log []string
+	kind := cfg["kind"]
+	status := 200
+	if n, err := strconv.Atoi(cfg["st"]); err == nil {
+		status = n
+	}
+	tfail := map[string]bool{}
+	if cfg["tfail"] != "-" && cfg["tfail"] != "" {
+		for _, n := range strings.Split(cfg["tfail"], ",") {
+			tfail[n] = true
+		}
+	}
+	var terrs []error
+	mkStub := func(name string) *c18Stub {
+		st := &c18Stub{name: name, log: &log, status: status}
+		if tfail[name] {
+			st.err = c17MakeErr(kind, "transport "+name)
+			terrs = append(terrs, st.err)
+		}
+		return st
+	}
 	// a chain that re-enters itself recurses without bound: keep Go's fatal stack overflow quick
 	defer debug.SetMaxStack(debug.SetMaxStack(32 << 20))
 	saved := http.DefaultTransport
-	http.DefaultTransport = &c18Stub{"d", &log}
+	http.DefaultTransport = mkStub("d")
 	defer func() { http.DefaultTransport = saved }()
 
 	stubs := map[string]*c18Stub{}
@@ -82,7 +113,7 @@ func c18Run(line string) string {
 			clients = append(clients, &http.Client{Transport: http.DefaultTransport})
 		default:
 			if stubs[t] == nil {
-				stubs[t] = &c18Stub{t, &log}
+				stubs[t] = mkStub(t)
 			}
 			clients = append(clients, &http.Client{Transport: stubs[t]})
 		}
@@ -103,10 +134,10 @@ func c18Run(line string) string {
 	errs := make([]error, nIcpt)
 	for i := 0; i < nIcpt; i++ {
 		i := i
-		errs[i] = fmt.Errorf("interceptor %d failed", i)
-		if i%2 == 1 {
-			// odd interceptors fail with an error that calls itself temporary: "an error aborts" holds for it as for any other
-			// (no second attempt may run the chain again)
+		errs[i] = c17MakeErr(kind, "interceptor "+strconv.Itoa(i))
+		if kind == "" && i%2 == 1 {
+			// (review R2) without an explicit kind= odd interceptors fail with an error that calls itself temporary: "an error
+			// aborts" holds for it as for any other (no second attempt may run the chain again)
 			errs[i] = &c18TempErr{fmt.Sprintf("interceptor %d failed (temporary)", i)}
 		}
 		f := network.Interceptor(func(r *http.Request) error {
@@ -180,6 +211,18 @@ func c18Run(line string) string {
 				var t c17Target
 				r := network.APIMakeGet[c17Target](api, "x")(nil, &t).Eval()
 				resp, err = r.Response, r.Err
+			case "APIDEL":
+				api := network.NewSimpleAPIWithSimpleHTTP("http://stub.test", sh)
+				api.ResponseDeserializer = func(b []byte, t interface{}) (interface{}, error) { return t, nil }
+				var t c17Target
+				r := network.APIMakeDelete[c17Target](api, "x/{id}")(network.PathParam{"id": 1}, &t).Eval()
+				resp, err = r.Response, r.Err
+			case "APIPOST":
+				api := network.NewSimpleAPIWithSimpleHTTP("http://stub.test", sh)
+				api.ResponseDeserializer = func(b []byte, t interface{}) (interface{}, error) { return t, nil }
+				var t c17Target
+				r := network.APIMakePostJSONBody[*c17Body, c17Target](api, "x")(nil, &c17Body{A: "a"}, &t).Eval()
+				resp, err = r.Response, r.Err
 			case "CLIENT":
 				rq, _ := http.NewRequest("GET", url, nil)
 				resp, err = sh.GetHTTPClient().Do(rq)
@@ -187,9 +230,14 @@ func c18Run(line string) string {
 				return "bad-op"
 			}
 			res := "->errother"
-			if err == nil && resp != nil && resp.StatusCode == 200 {
+			if err == nil && resp != nil && resp.StatusCode == status {
 				res = "->ok"
 			} else if err != nil {
+				for _, e := range terrs {
+					if errors.Is(err, e) {
+						res = "->terr"
+					}
+				}
 				for i, e := range errs {
 					if errors.Is(err, e) {
 						res = "->err" + strconv.Itoa(i)
@@ -211,7 +259,8 @@ func c18Run(line string) string {
 	return strings.Join(outs, " | ")
 }
 
-var c18Verbs = []string{"GET", "HEAD", "OPTIONS", "DELETE", "POST", "PUT", "PATCH", "DO", "API", "CLIENT"}
+var c18Verbs = []string{"GET", "HEAD", "OPTIONS", "DELETE", "POST", "PUT", "PATCH", "DO", "API", "CLIENT", "APIDEL", "APIPOST"}
+var c18Statuses = []string{"200", "200", "201", "204", "304", "401", "404", "429", "500", "503"}
 
 func c18Gen(tier string, rng *rand.Rand, emit func(string)) map[string]interface{} {
 	maxLen, nRandom := 3, 8000
@@ -235,7 +284,8 @@ func c18Gen(tier string, rng *rand.Rand, emit func(string)) map[string]interface
 	rec = func(prefix []string) {
 		if len(prefix) > 0 {
 			for _, h := range heads {
-				emit(h + strings.Join(prefix, " ; ") + " ; req " + c18Verbs[(exhaustive+len(prefix))%len(c18Verbs)])
+				extra := "kind=" + c17ErrKinds[(exhaustive/3)%len(c17ErrKinds)] + " st=" + c18Statuses[(exhaustive/7)%len(c18Statuses)] + " tfail=- "
+				emit(extra + h + strings.Join(prefix, " ; ") + " ; req " + c18Verbs[(exhaustive+len(prefix))%len(c18Verbs)])
 				exhaustive++
 			}
 		}
@@ -247,15 +297,29 @@ func c18Gen(tier string, rng *rand.Rand, emit func(string)) map[string]interface
 		}
 	}
 	rec(nil)
-	// 2. directed: every verb x failing position over a 4-interceptor chain; SetHTTPClient 0..3 times with the same / fresh clients
+	// 2. directed: every verb (body-less and body-carrying, direct and through SimpleAPI) x failing position over a 4-interceptor chain
+	// (none / interceptor 0..3 / the transport itself) x every error KIND (plain, net.Error Temporary/Timeout, wrapped,
+	// context.DeadlineExceeded, ECONNRESET / ETIMEDOUT in *net.OpError, *url.Error) x SetHTTPClient 0..3 times; each request twice
+	directed := 0
 	for _, v := range c18Verbs {
-		for fail := -1; fail < 4; fail++ {
-			f := "-"
-			if fail >= 0 {
+		for fail := -1; fail < 5; fail++ {
+			f, tf := "-", "-"
+			if fail >= 0 && fail < 4 {
 				f = strconv.Itoa(fail)
+			} else if fail == 4 {
+				tf = "s0,d"
 			}
-			for _, sets := range []string{"", "set c0 ; ", "set c0 ; set c0 ; ", "set c1 ; set c0 ; set c1 ; ", "set c2 ; set c3 ; set c2 ; ", "set c3 ; set c3 ; set c0 ; "} {
-				emit("clients=s0,n,d,s0 fail=" + f + " new=c0:0,1,2,3: " + sets + "req " + v + " ; req " + v)
+			for ki, kind := range c17ErrKinds {
+				if fail < 0 && ki > 0 {
+					continue
+				}
+				for si, sets := range []string{"", "set c0 ; ", "set c0 ; set c0 ; ", "set c1 ; set c0 ; set c1 ; ", "set c2 ; set c3 ; set c2 ; ", "set c3 ; set c3 ; set c0 ; "} {
+					if ki > 0 && si != ki%6 && si != 0 {
+						continue
+					}
+					emit("clients=s0,n,d,s0 fail=" + f + " kind=" + kind + " tfail=" + tf + " st=" + c18Statuses[(directed)%len(c18Statuses)] + " new=c0:0,1,2,3: " + sets + "req " + v + " ; req " + v)
+					directed++
+				}
 			}
 		}
 	}
@@ -282,7 +346,12 @@ func c18Gen(tier string, rng *rand.Rand, emit func(string)) map[string]interface
 		if rng.Intn(3) > 0 {
 			fail = ids(2)
 		}
-		head := "clients=" + strings.Join(cl, ",") + " fail=" + fail + " new=c" + strconv.Itoa(rng.Intn(nClients)) + ":" + ids(6) + ": "
+		tf := "-"
+		if rng.Intn(3) == 0 {
+			tf = []string{"d", "s0", "s1", "d,s0,s1,s2,s3", "s0,s1"}[rng.Intn(5)]
+		}
+		head := "clients=" + strings.Join(cl, ",") + " fail=" + fail + " kind=" + c17ErrKinds[rng.Intn(len(c17ErrKinds))] + " tfail=" + tf +
+			" st=" + c18Statuses[rng.Intn(len(c18Statuses))] + " new=c" + strconv.Itoa(rng.Intn(nClients)) + ":" + ids(6) + ": "
 		var ops []string
 		book, sets := 0, 0
 		for n := 1 + rng.Intn(12); n > 0; n-- {
@@ -315,7 +384,7 @@ func c18Gen(tier string, rng *rand.Rand, emit func(string)) map[string]interface
 	}
 	return map[string]interface{}{"exhaustive": false,
 		"exhaustive_scope": fmt.Sprintf("all histories of length 1..%d over %d ops (add/rem with duplicates, clear, set, req) x %d initial configurations, each followed by a request", maxLen, len(alphabet), len(heads)),
-		"exhaustive_cases": exhaustive, "directed_cases": len(c18Verbs) * 5 * 6, "random_cases": nRandom, "random_op_mix": stats}
+		"exhaustive_cases": exhaustive, "directed_cases": directed, "error_kinds": c17ErrKinds, "status_codes": c18Statuses, "random_cases": nRandom, "random_op_mix": stats}
 }
 
 func init() { register("C18", &Prop{Gen: c18Gen, Run: c18Run, CaseTimeout: 5 * time.Second}) }
